@@ -341,7 +341,7 @@ def frame_agreement(ctx, rid):
             continue  # moved from another Diffs payload
         n_snap += 1
         names = sorted({o.ref.best if o.kind == "call" else describe_origin(ff, o) for ff, o in srcs})
-        good = bool(srcs) and all(o.kind == "call" and re.search(r"(Root::<D>::get_text|Diff::<'n>::get_root_text|Doc::get_source|AstGrep::<D>::source|Root::<D>::source)$", o.ref.best) or
+        good = bool(srcs) and all(o.kind == "call" and re.search(r"(node::Root::<[^:]*(::[^:]+)*>::(get_text|source)|Diff::<'n>::get_root_text|source::Doc::get_source)$", o.ref.best) or
                                   (o.kind == "call" and o.ref.name == "new" and "String" in o.ref.best) for ff, o in srcs)
         ctx.ob(rid, "Diffs.old_source built in %s is the document text" % f.id, good,
                "snapshot comes from %s" % names if good else
